@@ -84,6 +84,17 @@ func checkWire(r *Run, scen string, evs []WireEv, in any) {
 	}
 	for _, id := range order {
 		p := ids[id]
+		// a unary exchange is exactly one request carrying a header AND a body — a present one, also when
+		// the request message encodes to zero bytes (README: "body: always specified, but may be empty")
+		if len(p.c2s) > 0 && strings.TrimPrefix(p.c2s[0].GetHeader().GetMethod(), "/") == strings.TrimPrefix(mUnary, "/") {
+			if len(p.c2s) != 1 || p.c2s[0].Body == nil {
+				sh := make([]string, len(p.c2s))
+				for i, e := range p.c2s {
+					sh[i] = shapeOf(e)
+				}
+				r.Violate(scen+".unary_request", "history", "a unary call's request is not exactly one envelope with header and body", in, strings.Join(sh, ";"), "one envelope: header + body")
+			}
+		}
 		if len(p.c2s) > 0 {
 			sh := make([]string, len(p.c2s))
 			for i, e := range p.c2s {
@@ -94,7 +105,7 @@ func checkWire(r *Run, scen string, evs []WireEv, in any) {
 			r.CountN("wire.envelopes", len(sh))
 		}
 		if len(p.s2c) > 0 {
-			unary := len(p.c2s) > 0 && p.c2s[0].Body != nil
+			unary := len(p.c2s) > 0 && (p.c2s[0].Body != nil || strings.TrimPrefix(p.c2s[0].GetHeader().GetMethod(), "/") == strings.TrimPrefix(mUnary, "/"))
 			sh := make([]string, len(p.s2c))
 			for i, e := range p.s2c {
 				sh[i] = shapeOf(e)
@@ -736,6 +747,10 @@ func c06Workloads(r *Run) {
 					ctx := context.Background()
 					if i%4 == 3 {
 						ctx = metadata.AppendToOutgoingContext(ctx, "x-prog", "fail:0:7")
+					}
+					if i%6 == 5 {
+						callUnary(ctx, rig.CC, nil) // a request message that encodes to zero bytes
+						return
 					}
 					callUnary(ctx, rig.CC, []byte(fmt.Sprintf("u%d-%d", round, i)))
 				}(i)
